@@ -8,5 +8,6 @@ CONSTANTS
   TagShift = 100
 VIEW View
 INVARIANTS OnlyIf Total_ NoRowIfReject OneRecord NoErrIfAccept Semantics Accounting CountConserved TypeOK
+PROPERTIES NoRowIfRejectAct
 ACTION_CONSTRAINT Export
 CHECK_DEADLOCK FALSE
